@@ -129,6 +129,17 @@ def run_case(c, R):
                 first_ = fh_.read(80 * 200)
             R.check(first_.find(b'END' + b' ' * 77) % 512 == 512 - 80, 'harness:header-not-aligned-as-intended')
         window = np.array(rvb.filterbank[0][0].window, dtype=float)
+        # the reference pipeline uses the object's coefficients; that they ARE the configured design (windowed-sinc low-pass of the
+        # named window -- C08's clause) is checked here as well, for every antenna and polarisation: a recording made with another
+        # filter than the configured one is not "the PFB output of the configured backend"
+        from ..ref import pfb_def as _rp
+        ref_w = _rp.lowpass_window(cfg['M'], cfg['P'], cfg['window'])
+        tol_w = (256 + 4 * cfg['M'] * cfg['P']) * _rp.EPS * float(np.max(np.abs(ref_w)))
+        for row_ in rvb.filterbank:
+            for fb_ in row_:
+                w_ = np.asarray(fb_.window, dtype=float)
+                R.check(w_.shape == ref_w.shape and float(np.max(np.abs(w_ - ref_w))) <= tol_w, 'filterbank-window-is-not-the-configured-design',
+                        window=cfg['window'], M=cfg['M'], P=cfg['P'])
         calls_per_block = len(rec['delivered']) / cfg['nblocks']
         if cfg['mult'] % max(1, int(round(calls_per_block))) or cfg['nsub'] > cfg['mult']:
             R.bucket('nsub-not-dividing')
